@@ -106,7 +106,7 @@ fn check_pure_cp(m: &mut Monitor, fam: &str, case: u64, s: &St, info: &Value) {
 
 fn pure_records(m: &mut Monitor, cfg: &Config) {
     let cases = shipped_pure_cases();
-    let nsp = cfg.tier.pick(3, 12);
+    let nsp = cfg.tier.pick(6, 12);
     par_cases(m, &cases, |m, ci, pc| {
         let Ok(eos) = pc.spec.build() else {
             return;
@@ -198,7 +198,7 @@ fn pure_records(m: &mut Monitor, cfg: &Config) {
 }
 
 fn pr_triples(m: &mut Monitor, cfg: &Config) {
-    let n = cfg.tier.pick(300, 10_000);
+    let n = cfg.tier.pick(1500, 10_000);
     let idx: Vec<u64> = (0..n).collect();
     par_cases(m, &idx, |m, _, &i| {
         let mut rng = Rng::derive(cfg.seed, "c06-pr", i);
@@ -226,7 +226,7 @@ fn pr_triples(m: &mut Monitor, cfg: &Config) {
 
 fn mixtures(m: &mut Monitor, cfg: &Config) {
     let col = Collections::load();
-    let n = cfg.tier.pick(250, 6000);
+    let n = cfg.tier.pick(1200, 6000);
     let idx: Vec<u64> = (0..n).collect();
     par_cases(m, &idx, |m, _, &i| {
         let mut rng = Rng::derive(cfg.seed, "c06-mix", i);
